@@ -101,6 +101,30 @@ impl TableData {
 
 /// Write a table as `files` parquet files with row groups of `rg` rows under dir/<name>/
 pub fn write_parquet(t: &TableData, dir: &std::path::Path, files: usize, rg: usize) -> std::path::PathBuf {
+    write_parquet_named(t, dir, files, rg, false)
+}
+
+/// Registers a table written by write_parquet_named: a directory listing, or (same-named files in sub-directories)
+/// an explicit file list, which is how a metadata layer hands files to ParquetTable.
+pub fn register_pq(ctx: &mut ExecutionContext, name: &str, tdir: &std::path::Path, same_names: bool) -> query_engine::Result<()> {
+    if !same_names {
+        return ctx.register_parquet(name.to_string(), tdir);
+    }
+    let mut files = Vec::new();
+    let mut subs: Vec<_> = std::fs::read_dir(tdir)?.filter_map(|e| e.ok()).map(|e| e.path()).filter(|p| p.is_dir()).collect();
+    subs.sort();
+    for sub in subs {
+        let f = sub.join("part-000.parquet");
+        if f.is_file() {
+            files.push(f);
+        }
+    }
+    let table = query_engine::storage::ParquetTable::try_from_files(files)?;
+    ctx.register_table_provider(name.to_string(), Arc::new(table));
+    Ok(())
+}
+
+pub fn write_parquet_named(t: &TableData, dir: &std::path::Path, files: usize, rg: usize, same_names: bool) -> std::path::PathBuf {
     use parquet::arrow::ArrowWriter;
     use parquet::file::properties::WriterProperties;
     let tdir = dir.join(&t.name);
@@ -110,7 +134,14 @@ pub fn write_parquet(t: &TableData, dir: &std::path::Path, files: usize, rg: usi
         if *lo == *hi && i > 0 {
             continue; // no empty extra files (one possibly-empty file is kept so the table exists)
         }
-        let path = tdir.join(format!("part-{i:03}.parquet"));
+        // same_names: hive-style layout, every file is called part-000.parquet in its own directory
+        let path = if same_names {
+            let sub = tdir.join(format!("p={i:03}"));
+            std::fs::create_dir_all(&sub).unwrap();
+            sub.join("part-000.parquet")
+        } else {
+            tdir.join(format!("part-{i:03}.parquet"))
+        };
         let f = std::fs::File::create(&path).unwrap();
         let props = WriterProperties::builder().set_max_row_group_size(rg.max(1)).build();
         let mut w = ArrowWriter::try_new(f, t.schema.clone(), Some(props)).unwrap();
@@ -279,9 +310,10 @@ pub fn build_ctx(tables: &[TableData], cfg: &Value, workdir: &str) -> Result<Bui
         let d = tempfile::Builder::new().prefix("pq").tempdir_in(workdir).map_err(|e| e.to_string())?;
         let files = cfg.get("files").and_then(|v| v.as_u64()).unwrap_or(1) as usize;
         let rg = cfg.get("rg").and_then(|v| v.as_u64()).unwrap_or(1024) as usize;
+        let same_names = cfg.get("same_names").and_then(|v| v.as_bool()).unwrap_or(false);
         for t in tables {
-            let tdir = write_parquet(t, d.path(), files, rg);
-            ctx.register_parquet(t.name.clone(), &tdir).map_err(|e| format!("register_parquet: {e}"))?;
+            let tdir = write_parquet_named(t, d.path(), files, rg, same_names);
+            register_pq(&mut ctx, &t.name, &tdir, same_names).map_err(|e| format!("register_parquet: {e}"))?;
             paths.push((t.name.clone(), tdir));
         }
         tmp = Some(d);
@@ -317,8 +349,9 @@ async fn run_distributed(
 ) -> query_engine::Result<(SchemaRef, Vec<RecordBatch>, Value)> {
     use query_engine::distributed::coordinator::{execute_any_distributed, Participant};
     let mut peer = empty_ctx(cfg, workdir);
+    let same_names = cfg.get("same_names").and_then(|v| v.as_bool()).unwrap_or(false);
     for (name, p) in &built.paths {
-        peer.register_parquet(name.clone(), p)?;
+        register_pq(&mut peer, name, p, same_names)?;
     }
     let parts: Vec<Participant> = (0..n)
         .map(|i| Participant { node_id: i as u64 + 1, address: format!("127.0.0.1:{}", 17700 + i), is_self: i == 0 })
